@@ -221,9 +221,9 @@ def _svc(calls):
     return type(ServiceBase)('Svc', (ServiceBase,), {'m': rpc(*[t for _, t in ARGS], _returns=Integer)(m)})
 
 
-def _run(c, family, validator, method, path, qs, body, ctype, extra_env=None):
+def _run(c, family, validator, method, path, qs, body, ctype, extra_env=None, prot_kw=None):
     calls = []
-    inp, outp = protocols(family, validator)
+    inp, outp = protocols(family, validator, **(prot_kw or {}))
     app = Application([_svc(calls)], TNS, name='VApp', in_protocol=inp, out_protocol=outp)
     wsgi = WsgiApplication(app)
     env = {'REQUEST_METHOD': method, 'PATH_INFO': path, 'QUERY_STRING': qs, 'SERVER_NAME': 'h', 'SERVER_PORT': '80',
@@ -317,6 +317,69 @@ def _mk_kinds(family, validator):
 for _f in ('json', 'yaml', 'msgpack', 'msgpackrpc'):
     for _v in ('soft', None):
         _mk_kinds(_f, _v)
+
+
+PROTOCOL_OPTIONS = [dict(ignore_wrappers=False), dict(complex_as=list), dict(polymorphic=True),
+                    dict(ignore_wrappers=False, polymorphic=True)]
+
+
+def _mk_kinds_options(family):
+    @obligation('C10.kinds_options.%s' % family, targets=['spyne.protocol.dictdoc.hier:HierDictDocument._doc_to_object',
+                                                          'spyne.protocol.dictdoc.hier:HierDictDocument._from_dict_value'],
+                bounded="4 non-default protocol configurations (wrapper keys kept, objects as lists, polymorphic, both) x 6 "
+                        "positions (integer, array, object, its field, the argument map, the document) x 15 value kinds, "
+                        "soft validation; objects spelled the way the configuration expects",
+                desc="dict documents under the protocol's other configurations: any value kind at any position ends in a "
+                     "normal response or a Client fault")
+    def ob(c):
+        opts = c.choose(PROTOCOL_OPTIONS, 'protocol_options')
+        pos = c.choose(['i', 'a', 'c', 'c.x', '__args__', '__top__'], 'position')
+        v = KINDS[c.choose(list(range(len(KINDS))), 'value_kind')]
+        args = dict(VALID_MSGPACK if family == 'msgpack' else VALID)
+        inner = dict(args['c'])
+        if pos == 'c.x':
+            inner['x'] = v
+        if opts.get('complex_as') is list:
+            args['c'] = [inner['x'], inner['s']]
+        elif opts.get('ignore_wrappers') is False:
+            args['c'] = {'Inner': inner}
+        else:
+            args['c'] = inner
+        if pos in ('i', 'a', 'c'):
+            args[pos] = v
+        doc = v if pos == '__top__' else ({'m': v} if pos == '__args__' else {'m': args})
+        if family == 'json':
+            body, ctype = json.dumps(doc).encode(), 'application/json'
+        elif family == 'yaml':
+            import yaml
+            body, ctype = yaml.safe_dump(doc).encode(), 'text/yaml'
+        else:
+            import msgpack
+
+            def enc(o):
+                if isinstance(o, dict):
+                    return {(k.encode() if isinstance(k, str) else k): enc(x) for k, x in o.items()}
+                if isinstance(o, list):
+                    return [enc(x) for x in o]
+                if isinstance(o, int) and not isinstance(o, bool) and not (-2 ** 63 <= o < 2 ** 64):
+                    return str(o)
+                return o
+            body, ctype = msgpack.packb(enc(doc)), 'application/x-msgpack'
+        out, seen, resp, calls = _run(c, family, 'soft', 'POST', '/', '', body, ctype, prot_kw=opts)
+        if opts.get('complex_as') is list:
+            # a fault document of this configuration is positional ([code, string, actor, detail]): only "no escape" and
+            # "no user code on a non-200 answer" are decided here
+            c.check('no_exception_escapes', out.returned, detail=(repr(out), pos, repr(v)))
+            st = seen[0] if seen else ''
+            c.check('user_function_not_run_on_fault', st.startswith('200') or not calls, detail=(st, pos, repr(v)))
+            c.check('status_200_or_4xx', st[:1] in ('2', '4'), detail=(st, (resp or b'')[:200], pos, repr(v)))
+        else:
+            _verdict(c, family, out, seen, resp, calls, detail=(sorted(opts), pos, repr(v)))
+    return ob
+
+
+for _f in ('json', 'yaml', 'msgpack'):
+    _mk_kinds_options(_f)
 
 
 XML_ARGS = ('<tns:i>5</tns:i><tns:u>x</tns:u><tns:d>2020-02-29</tns:d><tns:t>2020-02-29T10:00:00</tns:t><tns:b>YWJj</tns:b>'
@@ -451,7 +514,7 @@ for _f in ('xml', 'soap11', 'json', 'yaml', 'msgpack'):
 def _mk_bytes(family):
     @obligation('C10.bytes.%s' % family, targets=['spyne.server.wsgi:WsgiApplication.__call__'],
                 bounded="byte-level hostile bodies: invalid UTF-8, trailing data, NUL bytes, bogus charset, BOM, empty, "
-                        "random bytes (8 cases)",
+                        "random bytes, a method name that is not text (8-9 cases)",
                 desc="byte strings that are not documents of the protocol end in a Client fault")
     def ob(c):
         import msgpack, yaml
@@ -466,7 +529,7 @@ def _mk_bytes(family):
                   'msgpackrpc': 'application/x-msgpack',
                   'soap11': 'text/xml', 'soap12': 'application/soap+xml', 'http': 'text/plain'}
         case = c.choose(['invalid_utf8', 'trailing_data', 'nul_bytes', 'bogus_charset', 'utf16_charset', 'bom', 'empty',
-                         'random'], 'case')
+                         'random'] + (['method_name_not_utf8'] if family.startswith('msgpack') else []), 'case')
         body, ctype = valid, ctypes[family]
         if case == 'invalid_utf8':
             body = valid[:10] + b'\xff\xfe\xc3' + valid[10:]
@@ -484,6 +547,10 @@ def _mk_bytes(family):
             body = b''
         elif case == 'random':
             body = bytes((i * 37 + 11) % 256 for i in range(200))
+        elif case == 'method_name_not_utf8':
+            # the method name as a byte string that is not text (found by the thorough tier's single-byte edits)
+            body = (msgpack.packb([0, 1, b'\xff\xfe', [VALID_MSGPACK[k] for k, _ in ARGS]]) if family == 'msgpackrpc' else
+                    msgpack.packb({b'\xff\xfe': {k.encode(): v for k, v in VALID_MSGPACK.items()}}))
         method, path, qs = ('GET', '/m', 'i=5') if family == 'http' else ('POST', '/', '')
         out, seen, resp, calls = _run(c, family, 'soft', method, path, qs, body, ctype)
         _verdict(c, family, out, seen, resp, calls, detail=case)
